@@ -61,6 +61,11 @@ def judge_candidate(sp, att, c, ref, addr):
         return None           # string instructions: operands folded into the mnemonic
     got = list(n.ops)
     exp = list(exp_ops)
+    # an immediate has no size of its own: for push the reference shows the operand size in the mnemonic only
+    if exp_mn == "push" and exp and exp[0][0] == "imm":
+        raw = ref[1].split()[0]
+        if (raw == "pushw") != (sp.get("w") == 16):
+            return ("operand-size", "requested a %d-bit push, candidate %s is '%s'" % (sp.get("w") or 32, c.hex(), ref[1]), "push-immediate")
     # implicit operands the reference prints and the line may leave out
     if len(got) == len(exp) + 1 and exp_mn in ("shl", "shr", "sar", "rol", "ror", "rcl", "rcr") and got[-1] == ("imm", 1):
         got = got[:-1]
@@ -188,6 +193,61 @@ def w_run(run, st_, k, n):
         process(run, st_, specs[i:i + 400])
 
 
+# ---- AT&T x87 arithmetic: GNU as is the reference for what the line denotes (the historic fsub/fsubr, fdiv/fdivr reversal of the
+# AT&T syntax makes a hand-written expectation error-prone; the assembler that defines the syntax is asked instead)
+def x87_att_lines():
+    out = []
+    for base in ("fadd", "fsub", "fsubr", "fmul", "fdiv", "fdivr"):
+        for i in (1, 3, 7):        # not st(0): with both operands st(0) the D8 and DC forms compute the same thing
+            out += [(base, "st(i)", "%s %%st(%d)" % (base, i)), (base, "st(i),st", "%s %%st(%d), %%st" % (base, i)), (base, "st,st(i)", "%s %%st, %%st(%d)" % (base, i)),
+                    (base + "p", "st(i)", "%sp %%st(%d)" % (base, i)), (base + "p", "st,st(i)", "%sp %%st, %%st(%d)" % (base, i))]
+        out.append((base + "p", "none", base + "p"))
+    for mn in ("fxch", "fcom", "fcomp", "fucom", "fucomp", "ffree", "fld", "fst", "fstp"):
+        for i in (0, 1, 7):
+            out.append((mn, "st(i)", "%s %%st(%d)" % (mn, i)))
+    return out
+
+
+def x87_att(run):
+    from miasmx.arch.ia32_arch import x86mnemo
+    lines = x87_att_lines()
+    want = refs.gas([l for _, _, l in lines], syntax="att", scratch=run.scratch)
+    cands = []
+    for (mn, form, line), g in zip(lines, want):
+        run.ev()
+        if g is None:
+            run.exclude("x87_att_line_rejected_by_gas")
+            cands.append(None)
+            continue
+        try:
+            with runner.quiet():
+                cs = [bytes(c) for c in x86mnemo.asm_att(line)]
+        except ValueError:
+            cs = []
+        except Exception as e:
+            run.note(("att-x87", mn, form, "raises:" + type(e).__name__), "asm_att(%r) raised %s: %s" % (line, type(e).__name__, e), {"x87att": line})
+            cands.append(None)
+            continue
+        cands.append(cs)
+        if not cs:
+            run.exclude("x87_att_line_not_accepted")
+        elif g not in cs:
+            run.note(("att-x87", mn, form, "reference-encoding-missing"), "asm_att(%r) = %s but GNU as encodes it as %s" % (line, [c.hex() for c in cs], g.hex()), {"x87att": line})
+    # every other candidate must denote the same instruction: GNU as, fed objdump's AT&T text of the candidate, must come back to the reference bytes
+    flat = [(k, c) for k, cs in enumerate(cands) if cs for c in cs if c != want[k]]
+    texts = refs.objdump([c for _, c in flat], syntax="att", scratch=run.scratch)
+    back = refs.gas([(t[1] if t else "") for t in texts], syntax="att", scratch=run.scratch)
+    for (k, c), t, b in zip(flat, texts, back):
+        mn, form, line = lines[k]
+        if b != want[k]:
+            run.note(("att-x87", mn, form, "candidate-denotes-another-instruction"), "asm_att(%r) offers %s, which is '%s' (GNU as: %s); the line is %s" % (
+                line, c.hex(), t[1] if t else "?", b.hex() if b else None, want[k].hex()), {"x87att": line})
+    for k, cs in enumerate(cands):
+        if cs and want[k] in cs:
+            run.klass("x87_att_line_ok")
+            run.nt(("x87att", lines[k][2]))
+
+
 def main(run):
     refs.need("objdump"); refs.need("llvm-objdump")
     run.rule = ("Hypothesis-generated specs: mnemonic x operand shape from a hand-written family table (%d mnemonic/shape pairs) x registers, memory operands over "
@@ -197,9 +257,22 @@ def main(run):
                        "relative branch operands follow miasmX's convention (the number is the displacement), as in tests/test_encode.py",
                        "lines the assembler rejects (ValueError) are outside the domain; crashes are C10's subject"]
     runner.pmap(run, w_run, [run.pick(1500, 30000)] * 16)
+    x87_att(run)
 
 
 def replay(run, case):
+    if "x87att" in case:
+        class R(runner.Stats):
+            pass
+        r = R()
+        r.scratch = run.scratch
+        notes = []
+        r.note = lambda sig, det, c: notes.append((runner.norm_sig(sig), det, c))
+        x87_att(r)
+        for sig, det, c in notes:
+            if c.get("x87att") == case["x87att"] and (run.want_sig is None or sig == run.want_sig):
+                return (sig, det)
+        return None
     st_ = runner.Stats()
     sp = case["spec"]
     sp["ops"] = [tuple(o) for o in sp["ops"]]
